@@ -8,7 +8,7 @@ import Mathlib.Tactic.SplitIfs
 
 set_option linter.unusedSimpArgs false
 
-namespace Cellml.Tie
+namespace Cellml.Tie.PCmeta
 open Model Cellml.Gen
 
 theorem getElem?_setVar (h : List Var) (i j : Nat) (f : Var → Var) :
@@ -332,4 +332,4 @@ theorem astep_transferCmetaId (a : AState) (src dst : Nat) (hs : isLive a.m src 
       = (ofOutcome (astep a (.base (.transferCmetaId src dst))).2, (astep a (.base (.transferCmetaId src dst))).1) :=
   transferCmetaId_tie a src dst hs hd hb
 
-end Cellml.Tie
+end Cellml.Tie.PCmeta
